@@ -689,6 +689,7 @@ pub fn pipeline(c: &Value) -> Value {
         if c.get("indep").and_then(|x| x.as_bool()).unwrap_or(true) {
             let r = (|| -> Result<(), String> {
                 let a = crate::indep::indep::Agc::open(path.to_str().unwrap())?;
+                if a.pack_card != 50 || a.k as usize != k { return Err(format!("params stream says k={}, min_match={}, pack_cardinality={} (packs hold 50 entries, k={})", a.k, a.min_match, a.pack_card, k)); }
                 let got: Vec<String> = a.samples.iter().map(|s| s.0.clone()).collect();
                 let mut exp: Vec<String> = vec![];
                 for (sn, _) in samples.iter() { if !exp.contains(sn) { exp.push(sn.clone()); } }
